@@ -21,12 +21,12 @@ RULE = ("the kernel inputs of C12 plus unsorted arrays, empty arrays, search sta
         "whose results must agree with each other and with the model, and under AddressSanitizer (sample in quick, all "
         "in thorough) together with index / query / slop / score workloads. "
         "Non-trivial = both inputs non-empty or a search outside the array's range. Distinct by input hash.")
-TRUSTED = ["extraction (ExtrOcamlBasic only) + ocaml/driver.ml", "AddressSanitizer (gcc libasan) as observer of real accesses",
+TRUSTED = ["extraction (ExtrOcamlBasic + Extract Inlined Constant rev => List.rev) + ocaml/driver.ml", "AddressSanitizer (gcc libasan) as observer of real accesses",
            "gcc may delete dead loads: a model fault on a load whose value is unused can have no ASan report "
            "(listed in DEAD_LOADS)", "strides abstracted in the model"]
 ASSUMPTIONS = ["as_dense indices are below the requested size (the callers' contract)",
                "array lengths below 2^62", "compiler-introduced accesses, alignment and the allocator are outside the model"]
-EXPLANATION = ("kernel_safe theorems: no checked access of the model faults, for arbitrary inputs (all sorted-array kernels, "
+EXPLANATION = ("C14_<kernel> safety theorems (Props/C14.v): no checked access of the model faults, for arbitrary inputs (all sorted-array kernels, "
                "the BM25 walk and its call sites, the span search and its 512-slot table); the check compares impl and "
                "model on three memory layouts that must agree with each other and runs an ASan build.")
 
